@@ -36,8 +36,14 @@ Qed.
 Example C10_example :
   names_of [("A"%string, (["Id_1"; "Id_2"]%string, ["Me_1"; "Me_2"]%string))]
     (DSub (DCalc (DKeep (DVar "A") ["Me_2"%string]) [("Me_9"%string, CLit (VInt 1))]) [("Id_2"%string, VStr "x")])
-  = Ok (["Id_1"]%string, ["Me_2"; "Me_9"]%string).
-Proof. vm_compute. reflexivity. Qed.
+  = Ok (["Id_1"]%string, ["Me_2"; "Me_9"]%string) /\
+  (* set operators: the structure (names and order) of the FIRST operand; different component sets are rejected *)
+  names_of [("A"%string, (["Id_1"; "Id_2"]%string, ["Me_1"; "Me_2"]%string)); ("B"%string, (["Id_2"; "Id_1"]%string, ["Me_2"; "Me_1"]%string))]
+    (DSub (DSet OSetdiff (DVar "B") (DSet OUnion (DVar "A") (DVar "B"))) [("Id_2"%string, VStr "x")])
+  = Ok (["Id_1"]%string, ["Me_2"; "Me_1"]%string) /\
+  names_of [("A"%string, (["Id_1"; "Id_2"]%string, ["Me_1"; "Me_2"]%string)); ("B"%string, (["Id_1"]%string, ["Me_2"; "Me_1"]%string))]
+    (DSet OIntersect (DVar "A") (DVar "B")) = Err ERR_SET_STRUCT.
+Proof. vm_compute. repeat split. Qed.
 
 Print Assumptions C10_predicted_structure_is_result_structure.
 Print Assumptions C10_identifiers_never_null.
